@@ -45,6 +45,9 @@ func newC18PKI() *c18pki {
 	p.server["not-yet-valid"] = mk(p.ca, certs.Opts{CN: "collector", DNS: []string{"localhost"}, IPs: lb, NotBefore: time.Now().Add(24 * time.Hour), NotAfter: time.Now().Add(48 * time.Hour)})
 	p.server["wrong-san"] = mk(p.ca, certs.Opts{CN: "collector", DNS: []string{"other.example"}, IPs: []net.IP{net.ParseIP("10.9.9.9")}})
 	p.server["no-san"] = mk(p.ca, certs.Opts{CN: "localhost"})
+	// the other CA's server certificate followed by that CA's own certificate (a full chain in ServerCert)
+	fc := p.server["other-ca"]
+	p.server["other-ca-fullchain"] = [2][]byte{append(append([]byte{}, fc[0]...), p.other.PEM...), fc[1]}
 	p.client["trusted"] = mk(p.ca, certs.Opts{CN: "exporter", Client: true})
 	p.client["other-ca"] = mk(p.other, certs.Opts{CN: "exporter", Client: true})
 	p.client["expired"] = mk(p.ca, certs.Opts{CN: "exporter", Client: true, NotBefore: past, NotAfter: past.Add(time.Hour)})
@@ -57,6 +60,8 @@ func c18serverName(kind string) string {
 		return "localhost"
 	case "mismatching":
 		return "wrong.example"
+	case "mismatching-ip":
+		return "192.0.2.55" // an address literal the certificate does not carry (and nobody dials)
 	}
 	return ""
 }
@@ -69,7 +74,7 @@ func c18nameOK(serverKind, nameKind string) bool {
 	case "wrong-san", "no-san":
 		return false
 	}
-	return nameKind != "mismatching"
+	return nameKind != "mismatching" && nameKind != "mismatching-ip"
 }
 
 var c18tmpl = refcodec.TemplateMsg(refcodec.Header{ExportTime: 1, Seq: 0, Domain: 9}, refcodec.Template{ID: 256, Fields: []refcodec.FieldSpec{{ID: 7, Len: 2}}})
@@ -106,6 +111,11 @@ func c18expect(c c18cell) (want bool, open bool) {
 			// certificate of the right CA is accepted whatever names it carries (left open, see DESIGN §9)
 			if c.Name == "unset" {
 				return ok, c.Server == "wrong-san" || c.Server == "no-san"
+			}
+			if c.Name == "mismatching-ip" {
+				// pion/dtls drops a ServerName that is an address literal (it would be no legal SNI) and then
+				// verifies the chain only: the same open point as an unset ServerName
+				return ok, true
 			}
 			return ok && c18nameOK(c.Server, c.Name), false
 		}
@@ -201,7 +211,7 @@ func c18run(p *c18pki, c c18cell) (bool, string, bool) {
 		}
 	case "peer-vs-collector", "library":
 		sc := p.server["trusted"]
-		if c.Role == "library" {
+		if c.Role == "library" || c.Server == "other-ca-fullchain" {
 			sc = p.server[c.Server]
 		}
 		proto := "tcp"
@@ -227,6 +237,9 @@ func c18run(p *c18pki, c c18cell) (bool, string, bool) {
 		if c.Role == "peer-vs-collector" {
 			roots := x509.NewCertPool()
 			roots.AppendCertsFromPEM(p.ca.PEM)
+			if c.Server == "other-ca-fullchain" {
+				roots.AppendCertsFromPEM(p.other.PEM) // this client trusts the collector's issuer
+			}
 			cfg := &tls.Config{RootCAs: roots, ServerName: "localhost", MinVersion: tls.VersionTLS10, MaxVersion: c.Ver}
 			if c.Client != "none" {
 				kp, _ := tls.X509KeyPair(p.client[c.Client][0], p.client[c.Client][1])
@@ -757,6 +770,17 @@ func runC18(tier, replay string) int {
 			}
 			cells = append(cells, c18cell{Role: "library", Server: s, Name: n, Client: "none", Ver: tls.VersionTLS12, Proto: "dtls"})
 		}
+	}
+	// an address literal as the expected name that the certificate does not carry
+	for _, v := range []uint16{tls.VersionTLS12, tls.VersionTLS13} {
+		cells = append(cells, c18cell{Role: "exporter-vs-peer", Server: "trusted", Name: "mismatching-ip", Client: "none", Ver: v, Proto: "tls"})
+	}
+	cells = append(cells, c18cell{Role: "library", Server: "trusted", Name: "mismatching-ip", Client: "none", Ver: tls.VersionTLS13, Proto: "tls"},
+		c18cell{Role: "library", Server: "trusted", Name: "mismatching-ip", Client: "none", Ver: tls.VersionTLS12, Proto: "dtls"})
+	// a collector whose ServerCert holds a full chain of another CA: with a client CA configured, only that
+	// client CA vouches for exporters - not the issuer of the collector's own certificate
+	for _, cl := range []string{"other-ca", "trusted", "none"} {
+		cells = append(cells, c18cell{Role: "peer-vs-collector", Server: "other-ca-fullchain", Name: "matching", Client: cl, CA: true, Ver: tls.VersionTLS13, Proto: "tls"})
 	}
 	var wg sync.WaitGroup
 	var mu sync.Mutex
